@@ -51,7 +51,7 @@ type Case struct {
 	Up       []string    `json:"up"`   // upstream tree paths
 	Down     []string    `json:"down"` // downstream tree paths
 	Dirs     []Directive `json:"directives"`
-	Log      string      `json:"log"` // plain | none | skipped-latest | updated | skipped-between | empty-rsl
+	Log      string      `json:"log"` // plain | none | skipped-latest | updated | updated-outside-first | skipped-between | empty-rsl
 	Reps     int         `json:"reps"`
 }
 
@@ -120,6 +120,24 @@ func hasDir(paths []string, dir string) bool {
 }
 
 func (c Case) valid() bool {
+	if c.Log == "updated-outside-first" {
+		// the update between repetitions leaves the first directive's
+		// upstream subtree untouched: only meaningful when that directive
+		// has an upstream path, another one follows, and the menu has a
+		// path outside it
+		if len(c.Dirs) < 2 || c.Dirs[0].Up == "" {
+			return false
+		}
+		outside := false
+		for _, p := range c.Up {
+			if !strings.HasPrefix(p, c.Dirs[0].Up+"/") {
+				outside = true
+			}
+		}
+		if !outside {
+			return false
+		}
+	}
 	for _, d := range c.Dirs {
 		if d.Up != "" && !hasDir(c.Up, d.Up) {
 			return false
@@ -310,13 +328,24 @@ type upstream struct {
 	exec    map[string]bool
 	tip     string
 	version int
+	content map[string]string
 }
 
-func (u *upstream) newVersion() string {
+func (u *upstream) newVersion() string { return u.newVersionKeeping("\x00") }
+
+// newVersionKeeping makes a new upstream commit in which every path changes
+// except those under keep/ (which keep their previous content).
+func (u *upstream) newVersionKeeping(keep string) string {
 	u.version++
+	if u.content == nil {
+		u.content = map[string]string{}
+	}
 	files := map[string]file{}
 	for _, p := range u.paths {
-		files[p] = file{Content: fmt.Sprintf("up%d:%s", u.version, p), Exec: u.exec[p]}
+		if _, had := u.content[p]; !had || !strings.HasPrefix(p, keep+"/") {
+			u.content[p] = fmt.Sprintf("up%d:%s", u.version, p)
+		}
+		files[p] = file{Content: u.content[p], Exec: u.exec[p]}
 	}
 	ps := []string{}
 	if u.tip != "" {
@@ -459,7 +488,7 @@ func (x *runner) run(c Case) {
 	u := &upstream{g: ug, paths: c.Up, exec: upExec[c.UpMenu]}
 	var e2 *upEntry
 	switch c.Log {
-	case "plain", "updated":
+	case "plain", "updated", "updated-outside-first":
 		u.record(upRef, u.newVersion())
 	case "none":
 		v1 := u.newVersion()
@@ -497,6 +526,10 @@ func (x *runner) run(c Case) {
 			switch c.Log {
 			case "updated":
 				u.record(upRef, u.newVersion())
+			case "updated-outside-first":
+				// the first directive's subtree is unchanged (it is already
+				// up to date), the later directives have pending changes
+				u.record(upRef, u.newVersionKeeping(c.Dirs[0].Up))
 			case "skipped-between":
 				u.skip(e2)
 			}
@@ -892,7 +925,7 @@ func cases(thorough bool) (all []Case, skipped int) {
 	if thorough {
 		dirs := append(append([][]Directive{}, singleDirs...), pairDirs...)
 		for _, ds := range dirs {
-			for _, log := range []string{"plain", "none", "skipped-latest", "updated", "skipped-between", "empty-rsl"} {
+			for _, log := range []string{"plain", "none", "skipped-latest", "updated", "updated-outside-first", "skipped-between", "empty-rsl"} {
 				for ui := range upMenus {
 					for di := range downMenus {
 						if (log == "none" || log == "empty-rsl") && (ui > 1 || di > 1) {
@@ -921,6 +954,12 @@ func cases(thorough bool) (all []Case, skipped int) {
 			put(mk((k+l)%4, (k+2*l+1)%4, ds, log, 3))
 		}
 	}
+	// slice 1b: an update between repetitions that leaves the FIRST directive
+	// up to date while a later directive has pending changes
+	put(mk(0, 0, pairDirs[3], "updated-outside-first", 3))
+	put(mk(3, 1, pairDirs[3], "updated-outside-first", 3))
+	put(mk(2, 2, pairDirs[1], "updated-outside-first", 3))
+	put(mk(1, 3, pairDirs[1], "updated-outside-first", 2))
 	// slice 2: every (directive set, upstream menu 0..3), one log entry, downstream menu rotating
 	for k, ds := range dirs {
 		for ui := 0; ui < 4; ui++ {
@@ -954,7 +993,7 @@ func TestC18(t *testing.T) {
 		}
 	}()
 
-	col.Rule("cases: upstream tree menu (subsets of <=4 of {f, d/f, d/e/f, 'a b', 'é', foo, foo/x, foobar/x}) x downstream tree menu (likewise; with/without content under the downstream path, blob at the downstream path, prefix sibling foobar/, one menu with stale content under vendor/up) x directive set (upstream path {\"\", d, d/e} x downstream path {foo, foo/, vendor/up}, and pairs of directives for one upstream) x upstream log state (plain, no entry for the ref, latest entry skipped, entry updated between repetitions; thorough also entry skipped between repetitions, no log at all) x repetitions; the real propagation function is called once per repetition and EVERY call is judged (so 3 repetitions subsume 1 and 2). A class is (directive set, log state, repetition, before-state {first, already-propagated, upstream-changed, no-unskipped-entry}, tree menus, outcome).")
+	col.Rule("cases: upstream tree menu (subsets of <=4 of {f, d/f, d/e/f, 'a b', 'é', foo, foo/x, foobar/x}) x downstream tree menu (likewise; with/without content under the downstream path, blob at the downstream path, prefix sibling foobar/, one menu with stale content under vendor/up) x directive set (upstream path {\"\", d, d/e} x downstream path {foo, foo/, vendor/up}, and pairs of directives for one upstream) x upstream log state (plain, no entry for the ref, latest entry skipped, entry updated between repetitions, entry updated between repetitions leaving the first directive already up to date while a later one has pending changes; thorough also entry skipped between repetitions, no log at all) x repetitions; the real propagation function is called once per repetition and EVERY call is judged (so 3 repetitions subsume 1 and 2). A class is (directive set, log state, repetition, before-state {first, already-propagated, upstream-changed, no-unskipped-entry}, tree menus, outcome).")
 	col.Assume("the directive's upstream path exists as a directory in the upstream commits (cases where it does not are not enumerated)")
 	col.Assume("file modes are not judged (the statement speaks of paths and content); only regular files are used, one executable file is included to observe the mode")
 	col.Assume("the harness calls internal/propagation.PropagateChangesFromUpstreamRepository on two local repositories, i.e. after the clone/fetch step of gittuf.Repository.PropagateChangesFromUpstreamRepositories; fetching is not explored")
